@@ -330,6 +330,7 @@ def check_coalesce_and_tags(ctx: Ctx, which: set[str] | None = None) -> None:
                                where(r, r.node))
                         # ... and applies that protection to every match on its own (no cursor carried between matches)
                         _check_callback_stateless(ctx, r, "R-REWRITE-tags")
+                        _check_tag_scan_unconditional(ctx, r)
         ctx.require("R-REWRITE", "rewriter functions passed from fill_markdown", n_rw, 1)
 
 
@@ -754,6 +755,78 @@ def check_ellipsis_shape(ctx: Ctx) -> None:
     ctx.require("R-SUBSHAPE", "returns of the ellipsis callback", n_ret, 1)
     _check_callback_stateless(ctx, el, "R-SUBSHAPE-ellipsis")
     _check_literals(ctx, mod, {"…", "“", "‘", "”", "’", "—"})
+
+
+def check_rewrite_order(ctx: Ctx) -> None:
+    """The ellipsis pass is the last text rewrite: nothing that reads the text runs after it (before rendering). A pass that
+    ran later would see `…` where it used to see `...`, so switching ellipses on would change what *that* pass does - e.g. a
+    closing quote followed by dots is no longer recognised by the quote rewriter."""
+    repo, prog = ctx.repo, ctx.prog
+    fm = repo.func("flowmark.linewrapping.markdown_filling:fill_markdown")
+    sites: list[tuple[FuncInfo, Node, ast.Call, set[str]]] = []
+    work = [fm] + [repo.functions[q] for q in sorted(exclusive_helpers(prog, fm)) if q in repo.functions]
+    for f in work:
+        flow = prog.flow(f)
+        for n, c in flow.all_calls():
+            t = prog.resolve_call(f, c)
+            if isinstance(t, list) and t[0].module.name in ("flowmark.transforms.doc_transforms", "flowmark.transforms.doc_cleanups") \
+                    and (t[0].name.startswith("rewrite_") or t[0].name == "doc_cleanups"):
+                passed = set()
+                for a in list(c.args) + [k.value for k in c.keywords]:
+                    r = repo.resolve_expr(a, f.module, f) if isinstance(a, (ast.Name, ast.Attribute)) else None
+                    if isinstance(r, FuncInfo):
+                        passed.add(r.qual)
+                sites.append((f, n, c, passed))
+    ell = [(f, n, c) for f, n, c, passed in sites if "flowmark.typography.ellipses:ellipses" in passed]
+    ctx.require("R-REWRITE-order", "ellipsis rewrite call on the formatting path", len(ell), 1)
+    for f, n, c in ell:
+        later = []
+        for f2, n2, c2, _p in sites:
+            if f2 is f and n2 is not n and prog.flow(f).cfg.path_avoiding(n, n2, set()) is not None:
+                later.append(c2)
+        ctx.ob("R-REWRITE-order", f"{f.qual} :: no text rewrite runs after the ellipsis pass", not later,
+               "the ellipsis conversion must be the last pass over the text: a later pass would read its output and behave differently "
+               "with the option on; runs afterwards: " + ", ".join(norm(x)[:60] for x in later), where(f, c))
+
+
+def _check_tag_scan_unconditional(ctx: Ctx, r: FuncInfo) -> None:
+    """Every path through the rewriter either runs the TEMPLATE_TAG_PATTERN scan or returns its input untouched; the scan is
+    not the arm of a conditional expression (a hand-written "does the text contain a tag opener" shortcut has to list every
+    tag family and is a second copy of the pattern)."""
+    repo, prog = ctx.repo, ctx.prog
+    flow = prog.flow(r)
+    scans: list[Node] = []
+    conditional = []
+    from ..loader import parent
+
+    for n in flow.cfg.nodes:
+        for ex in flow.node_exprs(n):
+            for x in ast.walk(ex):
+                if isinstance(x, (ast.Name, ast.Attribute)):
+                    rr = repo.resolve_expr(x, r.module, r)
+                    if isinstance(rr, ConstInfo) and rr.name == "TEMPLATE_TAG_PATTERN":
+                        scans.append(n)
+                        p = parent(x)
+                        while p is not None and not isinstance(p, ast.stmt):
+                            if isinstance(p, ast.IfExp) and not any(y is x for y in ast.walk(p.test)):
+                                conditional.append((n, p))
+                            if isinstance(p, ast.BoolOp) and not any(y is x for y in ast.walk(p.values[0])):
+                                conditional.append((n, p))
+                            p = parent(p)
+    if not scans:
+        return
+    skipping = []
+    for ret in flow.cfg.returns():
+        if flow.cfg.path_avoiding(flow.cfg.entry, ret, set(scans)) is not None and ret not in scans:
+            org = origins(prog, r, ret.ast.value, ret)
+            if org != frozenset({("param", r.params[0])}):
+                skipping.append(ret)
+    ctx.ob("R-REWRITE-tags", f"{r.qual} :: the tag scan runs on every path that changes the text", not conditional and not skipping,
+           "template tags are found by TEMPLATE_TAG_PATTERN alone: the scan must not be skipped on a condition of the rewriter's own "
+           "(a shortcut that looks for tag openers misses the families it forgets, e.g. `{#`)"
+           + (f"; the scan is an arm of `{norm(conditional[0][1])[:80]}`" if conditional else "")
+           + (f"; `{norm(skipping[0].ast)[:60]}` is reached without it" if skipping else ""),
+           where(r, conditional[0][0] if conditional else (skipping[0] if skipping else r.node)))
 
 
 def _check_callback_stateless(ctx: Ctx, outer: FuncInfo, rule: str) -> None:
